@@ -174,6 +174,24 @@ def run(m: Model, r: Report, tier: str) -> None:
     request_roundtrip_guard(m, r, "R11")
     from sa.uds_rules import iso_tables
     iso_tables(m, r, "R8", "UDSIsoServices")
+    from sa.uds_rules import iso_subfunction_tables
+    iso_subfunction_tables(m, r, "R8")
+    from sa.uds_rules import range_helpers_rule
+    range_helpers_rule(m, r, "R6")
+    from sa.uds_rules import serialiser_keeps_order
+    if serialiser_keeps_order(m, r, "R1", "gallia.services.uds.core.service.UDSRequest") < 30:
+        raise AnalysisError("serialising methods of the request classes not found")
+    # uds_memory_parameters: the explicit-format branch (which validates the format) is taken exactly when a format is given; 0x00 is a given, invalid format
+    from sa.util import path_condition as _pc1, truth_table as _tt1
+    ump = m.require_function(f"{UTILS}.uds_memory_parameters")
+    fpar = ump.params()[2] if len(ump.params()) > 2 else None
+    val_calls = [n for n in ast.walk(ump.node) if isinstance(n, ast.Call) and ast.unparse(n.func) == "address_and_size_length"]
+    if fpar is None or len(val_calls) != 1:
+        raise AnalysisError(f"{ump.qualname}: format parameter / address_and_size_length call not found")
+    conds_f = [(t, p_) for t, p_ in _pc1(ump.node, val_calls[0]) if any(isinstance(x, ast.Name) and x.id == fpar for x in ast.walk(t))]
+    bad_f = _tt1(conds_f, {fpar: [None, 0, 0x11, 0x24]}, lambda a: a[fpar] is not None) if conds_f else ["not guarded by the format"]
+    r.check(not bad_f, "R9", f"{ump.qualname}#explicit-format-branch", f"the given format is validated / used on {bad_f}: it must be used whenever a format is given "
+            "(0x00 is a given format and has to be refused, not replaced by an automatic one while the caller still writes 0x00 on the wire)", loc=ump.loc)
 
     # routing by sub-function must not depend on the suppress bit: every quantity the registry lookup compares is the same for
     # byte 1 = b and b | 0x80 (exhaustive over b)
